@@ -22,8 +22,12 @@ def run_check(prop_id, tier, seed, repo=None):
         res = run_property(prop_id, index, tier=tier, seed=seed)
         from .report import confirmed_lost
         lost_msg = confirmed_lost(prop_id, res)
-        if lost_msg and not res.findings:
-            raise AnalysisError(lost_msg)
+        if lost_msg:
+            # listed known findings do not count: a rule that lost its instances must not hide behind them
+            from .report import load_known
+            known_ = {f"{k_['rule']}|{k_['key']}" for k_ in load_known() if k_.get("property") == prop_id and k_.get("status") == "known"}
+            if not [f_ for f_ in res.findings if f"{f_.rule}|{f_.key}" not in known_]:
+                raise AnalysisError(lost_msg)
         code = finish(res, tier, seed, t0)
         if res.incomplete and code == 0:
             print(f"ANALYSIS-ERROR property={prop_id}: {res.incomplete}")
